@@ -260,6 +260,86 @@ Definition find_instance_crop_size (insts : list (list kp)) (padding stride : Z)
     let ml := fold_left (fun acc inst => Qmax (Qmax acc (inst_length scale inst)) nopad) insts 0 in
     (Qceil ((ml + zq padding) / zq stride) * stride)%Z.
 
+(* ---------------------------------------------------------------- content extent / zero fill *)
+(* where the input image's extent [-1/2, n-1/2] lands in the output of a step: everything
+   outside [content_lo, content_hi] is padding.  "Padding only at the bottom / right" =
+   content_lo = -1/2 (nothing inserted before the first pixel) and content_hi <= osize - 1/2
+   (nothing cut off) *)
+Definition content_lo (s : astep) : Q := ap (cmap s) (- (1 # 2)).
+Definition content_hi (s : astep) : Q := ap (cmap s) (zq (isize s) - (1 # 2)).
+
+(* kornia crop_and_resize samples bilinearly with ZERO padding: output pixel j of a crop whose
+   first corner is x1 shows the source position x1 + j.  It carries image content iff
+   0 <= x1 + j <= n_in - 1 (inclusive range crop_valid; empty when hi < lo) and is exactly
+   zero when x1 + j <= -1 or x1 + j >= n_in (pixels j <= crop_zero_below, j >= crop_zero_above);
+   between the two it fades out linearly *)
+Definition crop_valid (x1 : Q) (n_in n : Z) : Z * Z :=
+  (Z.max 0 (Qceil (- x1)), Z.min (n - 1) (Qfloor (zq n_in - 1 - x1))).
+Definition crop_zero_below (x1 : Q) : Z := Qfloor (- 1 - x1).
+Definition crop_zero_above (x1 : Q) (n_in : Z) : Z := Qceil (zq n_in - x1).
+
+(* ---------------------------------------------------------------- DataPipe versions *)
+(* Resizer = resize_axis, PadToStride = pad_axis (same helper functions).
+   SizeMatcher (IterDataPipe) is NOT apply_sizematcher: it only pads at the bottom / right up to
+   (max_height, max_width), raises when an image is larger, and a max that is None is set from
+   the FIRST image and kept for all later ones (state = the two maxima) *)
+Definition smdp_state := (option Z * option Z)%type.
+Definition smdp_step (st : smdp_state) (H W : Z) : smdp_state * option (Z * Z) :=
+  let mh := dflt H (fst st) in
+  let mw := dflt W (snd st) in
+  ((Some mh, Some mw), if (mh <? H)%Z || (mw <? W)%Z then None else Some (mh, mw)).
+(* yielded sizes, and whether the iteration ended with the exception *)
+Fixpoint smdp_run (st : smdp_state) (imgs : list (Z * Z)) : list (Z * Z) * bool :=
+  match imgs with
+  | [] => ([], false)
+  | (H, W) :: t =>
+      match smdp_step st H W with
+      | (st', Some o) => let '(l, e) := smdp_run st' t in (o :: l, e)
+      | (_, None) => ([], true)
+      end
+  end.
+Definition smdp_axis (n out : Z) : astep := mkStep aid aid n out.
+
+(* InstanceCropper: one crop per (centroid, instance) pair, the first num_instances pairs only *)
+Definition crop_item (H W h w : Z) (it : (Q * Q) * list kp) : list kp * kp :=
+  let '((cx, cy), pts) := it in
+  let sx := crop_axis cx W w in
+  let sy := crop_axis cy H h in
+  (map (step_kp sx sy) pts, step_kp sx sy (Some (cx, cy))).
+Definition instance_cropper (H W h w : Z) (num : nat) (items : list ((Q * Q) * list kp))
+  : list (list kp * kp) := map (crop_item H W h w) (firstn num items).
+
+(* ---------------------------------------------------------------- augmentation stacks *)
+(* AugmentationSequential over aug_stack: an operation is in the stack iff its probability is > 0;
+   on each call every operation draws whether it is applied (same_on_batch: one draw).  Only an
+   APPLIED RandomAffine moves keypoints (by its sampled matrix); erasing, mixup, noise, contrast
+   and brightness leave them where they are.
+     apply_geometric_augmentation : [affine; erase; mixup]
+     apply_intensity_augmentation : [uniform noise; gaussian noise; contrast; brightness]
+     KorniaAugmenter              : [affine; uniform; gaussian; contrast; brightness; erase; mixup] *)
+Inductive aug_op :=
+| OpAffine (m : mat) | OpErase | OpMixup | OpUniformNoise | OpGaussianNoise | OpContrast | OpBrightness.
+
+Definition build_stack (cfg : list (aug_op * Q)) : list aug_op :=
+  map fst (filter (fun e => negb (Qle_bool (snd e) 0)) cfg).
+
+Definition op_kp (e : aug_op * bool) (p : kp) : kp :=
+  match e with
+  | (OpAffine m, true) => apply_mat m p
+  | _ => p
+  end.
+Definition stack_kp (entries : list (aug_op * bool)) (p : kp) : kp :=
+  fold_left (fun q e => op_kp e q) entries p.
+Definition applied_mats (entries : list (aug_op * bool)) : list mat :=
+  flat_map (fun e => match e with (OpAffine m, true) => [m] | _ => [] end) entries.
+
+(* bounding-box midpoint centroid of the visible keypoints (generate_centroids, anchor None) *)
+Definition midpoint (l : list Q) : Q :=
+  match l with
+  | [] => 0
+  | a :: t => (fold_left Qmax t a + fold_left Qmin t a) / 2
+  end.
+
 (* ---------------------------------------------------------------- harness entry point *)
 Inductive case :=
 | CSizeMatch (H W : Z) (mh mw : option Z)
@@ -271,7 +351,10 @@ Inductive case :=
 | CCentered (H W : Z) (mh mw : option Z) (s : Q) (stride ch cw : Z) (cx cy : Q) (pts : list kp)
 | CCropSize (insts : list (list kp)) (padding stride : Z) (scale : Q) (min_crop : option Z)
 | CAug (m : mat) (n_nodes : nat) (insts : list (list kp))
-| CAugContent (fixed_F04k : bool) (H W : Z) (m : mat) (pts : list kp).
+| CAugContent (fixed_F04k : bool) (H W : Z) (m : mat) (pts : list kp)
+| CSizeMatchDP (mh mw : option Z) (imgs : list (Z * Z))
+| CCropper (H W h w : Z) (num : nat) (items : list ((Q * Q) * list kp))
+| CAugStack (entries : list (aug_op * bool)) (n_nodes : nat) (insts : list (list kp)).
 
 (* result: integers (sizes), rationals (scales / map coefficients), keypoints *)
 Definition result := option (list Z * list Q * list (list kp)).
@@ -311,7 +394,12 @@ Definition run (c : case) : result :=
   | CCrop cx cy H W h w pts =>
       let sx := crop_axis cx W w in
       let sy := crop_axis cy H h in
-      Some ([osize sy; osize sx], affq (cmap sx) ++ affq (cmap sy),
+      let x1 := fst (bbox_axis cx w) in
+      let y1 := fst (bbox_axis cy h) in
+      Some ([osize sy; osize sx;
+             fst (crop_valid x1 W w); snd (crop_valid x1 W w); crop_zero_below x1; crop_zero_above x1 W;
+             fst (crop_valid y1 H h); snd (crop_valid y1 H h); crop_zero_below y1; crop_zero_above y1 H],
+            affq (cmap sx) ++ affq (cmap sy),
             [map (step_kp sx sy) pts; [step_kp sx sy (Some (cx, cy))]])
   | CFull H W mh mw s stride pts =>
       match pipe_full H W mh mw s stride with
@@ -332,4 +420,11 @@ Definition run (c : case) : result :=
                           | Some (x, y) => bq (selector_F04k H W m x y)
                           | None => 0%Z end) pts, [],
             [map (apply_mat (warp_content fx H W m)) pts; map (apply_mat m) pts])
+  | CSizeMatchDP mh mw imgs =>
+      let '(l, e) := smdp_run (mh, mw) imgs in
+      Some (bq e :: flat_map (fun o => [fst o; snd o]) l, [], [])
+  | CCropper H W h w num items =>
+      Some ([], [], map (fun r => fst r ++ [snd r]) (instance_cropper H W h w num items))
+  | CAugStack entries n insts =>
+      Some ([], [], aug_wrapper (map (stack_kp entries)) n insts)
   end.
